@@ -65,7 +65,10 @@ func c1RefBatch(progs []goProg, timeout time.Duration) (map[string]outcome, erro
 		if err := os.WriteFile(filepath.Join(dir, "main.go"), []byte(b.String()), 0o644); err != nil {
 			return nil, err
 		}
-		cmd := exec.Command("go", "build", "-o", bin, "-gcflags=-e", ".")
+		// optimisations off for the generated packages: go1.23.5 miscompiles signed % and / by a constant when
+		// the dividend is `x + C` with a range-analysed x and the sum overflows (two cases found by this check);
+		// with -N the compiled binary follows the language semantics
+		cmd := exec.Command("go", "build", "-o", bin, "-gcflags=ref/...=-e -N -l", ".")
 		cmd.Dir = dir
 		cmd.Env = append(os.Environ(), "GOFLAGS=-mod=mod", "GOPROXY=off", "GOSUMDB=off", "GOTOOLCHAIN=local", "GO111MODULE=on")
 		bout, berr := cmd.CombinedOutput()
